@@ -5,7 +5,7 @@ CONSTANTS
   Sentinel = FALSE
   EmitRows = TRUE
   Mode = "content"
-  NSlices = 16
+  NSlices = 32
   Slice = 1
 INVARIANTS D_InSpace D_Design Emit
 CHECK_DEADLOCK FALSE
